@@ -145,7 +145,7 @@ def abstract_input(rec):
             "tvis": a["tvis"], "tvisp": a["tvisp"], "tname": a["tname"], "implkind": a["implkind"], "sub": [x["kind"] for x in it.get("attrs", [])],
             "fns": [], "items": [], "modname": "", "modvis": "", "delegname": "",
             "tr": {"name": "", "vis": "", "ngen": 0, "gargs": "", "supers": [], "nother": 0, "methods": []},
-            "im": {"trait": "", "selfty": ""}}
+            "im": {"trait": "", "selfty": "", "targs": False}}
     for o in a["opts"]:
         if o["k"] == "delegate_by" and o["f"] == "eq":
             base["delegname"] = o["v"]
@@ -173,7 +173,7 @@ def abstract_input(rec):
     else:
         if it["inherent"]:
             return None, "inherent impl"
-        base["im"] = {"trait": it["trait"], "selfty": it["self_ty"].replace(" ", "")}
+        base["im"] = {"trait": it["trait"], "selfty": it["self_ty"].replace(" ", ""), "targs": bool(it.get("trait_args"))}
         for m in it["methods"]:
             base["fns"].append(_fn_abs(m))
         if it["other_items"]:
@@ -203,7 +203,9 @@ def _attrs(attrs):
 
 
 def _mline(m, in_impl):
-    implp = any(p.get("name") == "__impl" for p in m["params"])
+    # the parameter the macro inserts: the first typed one, called `__impl`, of type [&]::entrait::Impl<EntraitT>
+    # (a parameter of the user's may be called `__impl` too)
+    implp = bool(m["params"]) and m["params"][0].get("name") == "__impl" and "Impl <" in m["params"][0].get("ty", "")
     nparams = len(m["params"]) - (1 if implp else 0)
     if m["async"]:
         form = "async"
@@ -366,7 +368,7 @@ def model_check(chk, thorough=False):
         raise vf.ToolError(f"MC_Expand: the pipeline model violates one of its design invariants (see {res['log']})")
     vf.need_ok(res, "MC_Expand")
     chk.add_tlc(res, "MC_Expand")
-    chk.vacuity(res, ["ParseAttr", "GenerateItems", "RenderLines"])
+    chk.vacuity(res, ["ParseItem", "ParseAttr", "GenerateItems", "RenderLines"])
     return res
 
 
